@@ -8,21 +8,21 @@ import (
 
 // For satisfying "Upon receipt of a redaction event, the server must strip off any keys not in the following list:"
 type unredactableEventFieldsV1 struct {
-	EventID        spec.RawJSON           `json:"event_id,omitempty"`
-	Type           string                 `json:"type"`
-	RoomID         spec.RawJSON           `json:"room_id,omitempty"`
-	Sender         spec.RawJSON           `json:"sender,omitempty"`
-	StateKey       spec.RawJSON           `json:"state_key,omitempty"`
+	EventID        spec.RawJSON            `json:"event_id,omitempty"`
+	Type           string                  `json:"type"`
+	RoomID         spec.RawJSON            `json:"room_id,omitempty"`
+	Sender         spec.RawJSON            `json:"sender,omitempty"`
+	StateKey       spec.RawJSON            `json:"state_key,omitempty"`
 	Content        map[string]spec.RawJSON `json:"content"`
-	Hashes         spec.RawJSON           `json:"hashes,omitempty"`
-	Signatures     spec.RawJSON           `json:"signatures,omitempty"`
-	Depth          spec.RawJSON           `json:"depth,omitempty"`
-	PrevEvents     spec.RawJSON           `json:"prev_events,omitempty"`
-	PrevState      spec.RawJSON           `json:"prev_state,omitempty"`
-	AuthEvents     spec.RawJSON           `json:"auth_events,omitempty"`
-	Origin         spec.RawJSON           `json:"origin,omitempty"`
-	OriginServerTS spec.RawJSON           `json:"origin_server_ts,omitempty"`
-	Membership     spec.RawJSON           `json:"membership,omitempty"`
+	Hashes         spec.RawJSON            `json:"hashes,omitempty"`
+	Signatures     spec.RawJSON            `json:"signatures,omitempty"`
+	Depth          spec.RawJSON            `json:"depth,omitempty"`
+	PrevEvents     spec.RawJSON            `json:"prev_events,omitempty"`
+	PrevState      spec.RawJSON            `json:"prev_state,omitempty"`
+	AuthEvents     spec.RawJSON            `json:"auth_events,omitempty"`
+	Origin         spec.RawJSON            `json:"origin,omitempty"`
+	OriginServerTS spec.RawJSON            `json:"origin_server_ts,omitempty"`
+	Membership     spec.RawJSON            `json:"membership,omitempty"`
 }
 
 func (u *unredactableEventFieldsV1) GetType() string {
@@ -39,18 +39,18 @@ func (u *unredactableEventFieldsV1) SetContent(content map[string]spec.RawJSON) 
 
 // For satisfying "Upon receipt of a redaction event, the server must strip off any keys not in the following list:"
 type unredactableEventFieldsV2 struct {
-	EventID        spec.RawJSON           `json:"event_id,omitempty"`
-	Type           string                 `json:"type"`
-	RoomID         spec.RawJSON           `json:"room_id,omitempty"`
-	Sender         spec.RawJSON           `json:"sender,omitempty"`
-	StateKey       spec.RawJSON           `json:"state_key,omitempty"`
+	EventID        spec.RawJSON            `json:"event_id,omitempty"`
+	Type           string                  `json:"type"`
+	RoomID         spec.RawJSON            `json:"room_id,omitempty"`
+	Sender         spec.RawJSON            `json:"sender,omitempty"`
+	StateKey       spec.RawJSON            `json:"state_key,omitempty"`
 	Content        map[string]spec.RawJSON `json:"content"`
-	Hashes         spec.RawJSON           `json:"hashes,omitempty"`
-	Signatures     spec.RawJSON           `json:"signatures,omitempty"`
-	Depth          spec.RawJSON           `json:"depth,omitempty"`
-	PrevEvents     spec.RawJSON           `json:"prev_events,omitempty"`
-	AuthEvents     spec.RawJSON           `json:"auth_events,omitempty"`
-	OriginServerTS spec.RawJSON           `json:"origin_server_ts,omitempty"`
+	Hashes         spec.RawJSON            `json:"hashes,omitempty"`
+	Signatures     spec.RawJSON            `json:"signatures,omitempty"`
+	Depth          spec.RawJSON            `json:"depth,omitempty"`
+	PrevEvents     spec.RawJSON            `json:"prev_events,omitempty"`
+	AuthEvents     spec.RawJSON            `json:"auth_events,omitempty"`
+	OriginServerTS spec.RawJSON            `json:"origin_server_ts,omitempty"`
 }
 
 func (u *unredactableEventFieldsV2) GetType() string {
